@@ -203,9 +203,9 @@ func (p *c13P) o(ss ...string) {
 		p.add('o', s)
 	}
 }
-func (p *c13P) noNL()     { p.t[len(p.t)-1].nl = false }
-func (p *c13P) sepS()     { p.t[len(p.t)-1].sep = 'S' }
-func (p *c13P) sepO()     { p.t[len(p.t)-1].sep = 'O' }
+func (p *c13P) noNL()        { p.t[len(p.t)-1].nl = false }
+func (p *c13P) sepS()        { p.t[len(p.t)-1].sep = 'S' }
+func (p *c13P) sepO()        { p.t[len(p.t)-1].sep = 'O' }
 func (p *c13P) last() string { return p.t[len(p.t)-1].s }
 
 var c13StrPool = []string{"a", "ab", "x y", "", "7", "# not a comment", "a;b", "{}", "//", "é日本", `tab\there`, `line\nbreak`, `back\\slash`, "1e3", "print", " lead", "a,b,,c", "%"}
@@ -1027,10 +1027,10 @@ func c13Program(r *rand.Rand, plain bool) []c13Tok {
 		p.o("{")
 		p.stmts(1, 1+r.Intn(2))
 		if p.t[len(p.t)-1].sep == 'S' {
-		if p.t[len(p.t)-1].sep == 'S' {
-			p.t[len(p.t)-1].sep = 'O'
+			if p.t[len(p.t)-1].sep == 'S' {
+				p.t[len(p.t)-1].sep = 'O'
+			}
 		}
-	}
 		p.o("}")
 	}
 	if nr > 0 && chance(r, 0.2) {
@@ -1328,4 +1328,145 @@ func c13OtherQuote(lit string) string {
 		return `"` + lit[1:len(lit)-1] + `"`
 	}
 	return "'" + lit[1:len(lit)-1] + "'"
+}
+
+// ---------------------------------------------------------------------------------------
+// literal-reevaluation: a literal denotes exactly its characters EVERY TIME it is evaluated.
+// A literal (strings in either quote with and without escapes, numbers, regex, true / false /
+// null, array and object literals, nested) is handed to something that can be MODIFIED -- the
+// identifier of a match pattern (which binds the subject's own cell), the parts of an array
+// pattern, a for-in item variable, a parameter (also two calls down), a variable, an array
+// element, an object member, the value a function returns -- it is printed, modified (assigned,
+// `+=`, `++`, pushed to, popped, an element or member stored), printed again, and the whole is
+// evaluated three times: in a loop, once per record, in a recursive function, by three calls
+// of one function. Every round prints a separator first. Oracle: the rounds print exactly the
+// same text (what an earlier round did to its binding never shows in a later one); compared
+// with the model (class, out).
+// ---------------------------------------------------------------------------------------
+
+type c13Lit struct {
+	text string
+	ty   string // string number other array object
+	n    int    // arrays: number of items
+}
+
+var c13ReLits = []c13Lit{
+	{`"a"`, "string", 0}, {`'n='`, "string", 0}, {`""`, "string", 0}, {`''`, "string", 0}, {`"it's"`, "string", 0}, {`'say "hi"'`, "string", 0}, {`"tab\there"`, "string", 0}, {`'line\nbreak'`, "string", 0},
+	{`"back\\slash"`, "string", 0}, {`"é日本"`, "string", 0}, {`"# not a comment"`, "string", 0}, {`'7'`, "string", 0}, {`"a b c"`, "string", 0},
+	{`0`, "number", 0}, {`7`, "number", 0}, {`2.5`, "number", 0}, {`007`, "number", 0}, {`100`, "number", 0},
+	{`true`, "other", 0}, {`false`, "other", 0}, {`null`, "other", 0}, {`/re/`, "other", 0}, {`/a b/`, "other", 0},
+	{`[1, "x"]`, "array", 2}, {`["a", 'b']`, "array", 2}, {`[]`, "array", 0}, {`[[1], {a: "s"}]`, "array", 2}, {`["only"]`, "array", 1}, {`[3, 1, 2]`, "array", 3}, {`[null, true]`, "array", 2}, {`['q', ["in", "ner"]]`, "array", 2},
+	{`{a: "v"}`, "object", 0}, {`{}`, "object", 0}, {`{"k": [1], a: 'w'}`, "object", 0}, {`{a: {a: "deep"}}`, "object", 0},
+}
+
+// c13Mods: statements that modify the binding v of a value of type ty
+func c13Mods(ty string, n int) []string {
+	switch ty {
+	case "string":
+		return []string{`v = v + "!"`, `v += "!"`, `v = v + v`, `v = 0`, `v = v.upper() + "?"`}
+	case "number":
+		return []string{`v++`, `v += 1`, `v = v * 2`, `--v`, `v -= 0.5`, `v = "s"`, `++v`, `v /= 4`}
+	case "other":
+		return []string{`v = 1`, `v = "x"`, `v = [v]`, `v = null`}
+	case "array":
+		ms := []string{`v.push(9)`, `v.push("!")`, `v = 0`, `v[0] = "z"`, `v.push(v.length())`}
+		if n > 0 {
+			ms = append(ms, `v.pop()`, `v.popfirst()`, `v.sort()`, `v[0] = [v[0]]`)
+		}
+		return ms
+	default:
+		return []string{`v.a = "z"`, `v.added = 1`, `v = 0`, `v.a = [v.a]`, `v["k"] = "!"`}
+	}
+}
+
+type c13ReUse struct {
+	name  string
+	funcs string // function definitions the use needs; «L» = the literal, «M» = the modification (of v)
+	stmt  string // the statements of one round
+	tys   string // types it applies to ("" = all)
+}
+
+var c13ReUses = []c13ReUse{
+	{"match identifier binds the literal", "", "match («L») { v => { print v; «M»; print v } }\n", ""},
+	{"match identifier, second case", "", "match («L») { 123456 => 0, v => { print v; «M»; print v } }\n", ""},
+	{"match identifier in a called function", "function use() { match («L») { v => { print v; «M»; print v } }\n }\n", "use()\n", ""},
+	{"array pattern binds the items", "", "match («L») { [v, w] => { print v, w; «M»; w = v; print v, w }, [v] => { print v; «M»; print v }, v => { print \"whole\", v } }\n", "array"},
+	{"for-in item variable", "", "for (v in «L») { print v; «M»; print v }\n", "string array object"},
+	{"for-in item and index variable", "", "for (v, k in «L») { print k, v; «M»; k = k + \"!\"; print k, v }\n", "string array object"},
+	{"for-in over the literal, the iterable's items modified through a match", "", "for (it in «L») { match (it) { v => { print v; «M»; print v } }\n }\n", "array"},
+	{"parameter", "function use(v) { print v; «M»; print v; return v }\n", "print use(«L»)\n", ""},
+	{"parameter two calls down", "function outer(a) { return inner(a) }\nfunction inner(v) { print v; «M»; print v; return v }\n", "print outer(«L»)\n", ""},
+	{"variable assigned the literal", "", "v = «L»; print v; «M»; print v\n", ""},
+	{"array element", "", "arr = [«L», «L»]; match (arr[0]) { v => { print v; «M»; print v } }\n print arr\n", ""},
+	{"object member", "", "o = {m: «L»}; match (o.m) { v => { print v; «M»; print v } }\n print o\n", ""},
+	{"returned by a function", "function mk() { return «L» }\n", "match (mk()) { v => { print v; «M»; print v } }\n v = mk(); print v; «M»; print v\n", ""},
+	{"the literal twice in one statement", "", "match («L») { v => { «M»; print v, «L» } }\n", ""},
+	{"print argument after a modified twin", "", "v = «L»; «M»; print v, «L», [«L»]\n", ""},
+}
+
+var c13ReReps = []struct{ name, prog string }{
+	{"for loop", "«F»BEGIN { for (i = 0; i < 3; i++) { print \"--\"\n «S» }\n}\n"},
+	{"while loop", "«F»BEGIN { i = 0\n while (i < 3) { i++; print \"--\"\n «S» }\n}\n"},
+	{"once per record", "«F»{ print \"--\"\n «S» }\n"},
+	{"recursive function", "«F»function rec(left) { if (left == 0) return 0\n print \"--\"\n «S» return rec(left - 1) }\nBEGIN { rec(3) }\n"},
+	{"three calls of one function", "«F»function once() { print \"--\"\n «S» }\nBEGIN { once(); once(); once() }\n"},
+	{"BEGIN, a record and END", "«F»function once() { print \"--\"\n «S» }\nBEGIN { once() }\n$ == 2 { once() }\nEND { once() }\n"},
+}
+
+func c13LiteralReevaluation(r *rand.Rand, tier string, emit func(Case)) {
+	files := []File{{Name: "in.json", Data: []byte("[1, 2, 3]")}}
+	for _, lit := range c13ReLits {
+		for _, use := range c13ReUses {
+			if use.tys != "" && !strings.Contains(use.tys, lit.ty) {
+				continue
+			}
+			mods := c13Mods(lit.ty, lit.n)
+			for ri, rep := range c13ReReps {
+				var chosen []string
+				if tier == "thorough" {
+					chosen = mods
+				} else {
+					chosen = []string{mods[(ri+r.Intn(len(mods)))%len(mods)]}
+					if chance(r, 0.3) {
+						chosen = append(chosen, pick(r, mods))
+					}
+				}
+				for _, mod := range chosen {
+					fill := func(s string) string {
+						return strings.ReplaceAll(strings.ReplaceAll(s, "«L»", lit.text), "«M»", mod)
+					}
+					prog := strings.ReplaceAll(strings.ReplaceAll(rep.prog, "«F»", fill(use.funcs)), "«S»", fill(use.stmt))
+					emit(Case{Req: RunReq(prog, nil, files, false), Fields: []string{"class", "out", "line", "col", "src"},
+						Meta:       metaProg(prog, "literal", lit.text, "handed to", use.name, "modification", mod, "evaluated again by", rep.name, "row", lit.ty+" / "+use.name, "col", rep.name),
+						NonTrivial: func(i Resp) bool { return i["class"] == "ok" && i["out"] != "-" },
+						Oracle: func(i Resp) string {
+							if i["class"] == "syntax" {
+								return "the generated program does not parse: " + i.String()
+							}
+							if i["class"] != "ok" {
+								return "" // the modification fails for this value (compared with the model)
+							}
+							rounds := strings.Split(string(i.Bytes("out")), "--\n")
+							if len(rounds) != 4 || rounds[0] != "" {
+								return fmt.Sprintf("expected three rounds, each starting with the separator line: %q", i.Bytes("out"))
+							}
+							for k := 2; k <= 3; k++ {
+								if rounds[k] != rounds[1] {
+									return fmt.Sprintf("C13: the literal %s is evaluated three times, handed to %s and modified (%s) each time: round 1 prints %q, round %d prints %q", lit.text, use.name, mod, rounds[1], k, rounds[k])
+								}
+							}
+							return ""
+						}})
+				}
+			}
+		}
+	}
+}
+
+func init() {
+	register(Family{
+		Name: "literal-reevaluation", Prop: "C13",
+		Rule: "35 literals (strings in either quote, empty, with the other quote inside, with \\n \\t \\\\, non-ASCII; numbers incl. 007 and 2.5; true false null; regex; array and object literals, empty and nested) x 15 ways of handing the value to something that can be modified (identifier of a match pattern, also as the second case and in a called function; items of an array pattern; for-in item variable, with index variable, items modified through a match; parameter, parameter two calls down; variable; array element; object member; value returned by a function; the literal twice in one statement; print argument beside a modified twin) x the modifications that fit the type (= += ++ -- *= /= -= with numbers and strings, push pop popfirst sort, element and member stores, replacing the value) x 6 ways of evaluating it three times (for loop, while loop, once per record, recursive function, three calls of one function, BEGIN + one record + END), a separator line before every round. Oracle: the three rounds print the same text; compared with the model (class, out, position). Matrix: literal type and use x repetition.",
+		Gen:  c13LiteralReevaluation,
+	})
 }
